@@ -1165,10 +1165,12 @@ bool tree<Key, Value, ValueEqual>::compare(
               return false;
             }
           } else {
-            if ((compare_left_to_right && !po.default_is_top()) ||
-                (!compare_left_to_right && po.default_is_top())) {
-              return false;
-            }
+            // t is not empty and it does not bind key. Either the
+            // default value on t's side is not above s's value for
+            // key, or t binds some other key that s (a single leaf)
+            // leaves at its default value: in both cases the
+            // comparison fails.
+            return false;
           }
           if (compare_left_to_right && po.default_is_top() && !t->is_leaf()) {
             return false;
